@@ -88,6 +88,18 @@ pub fn run_scenario(seed: u64, i: usize, tier: Tier) -> Outcome {
     if protocol == Protocol::Tcp && r.chance(1, 2) {
         wcfg.faults.bind_in_use_pct = r.range(10, 50) as u8;
     }
+    // uneven ECMP: half of the flows (classic UDP / TCP change ports per probe) cross 1..3 more
+    // routers, so that a router may answer for a ttl at or beyond the target's distance
+    let uneven = protocol != Protocol::Icmp && r.chance(1, 5);
+    if uneven {
+        wcfg.long_branch_extra = r.range(1, 3) as u8;
+    }
+    // transient send failures (where the platform layer maps them to a failed probe)
+    if crate::e2e::is_probe_failed_errno(protocol, v6, true, crate::world::Op::SendTo, libc::EHOSTUNREACH) && r.chance(1, 5) {
+        for _ in 0..r.range(1, 12) {
+            wcfg.faults.at_op.insert((crate::world::Op::SendTo, r.below(150) as usize), crate::world::Fault { errno: libc::EHOSTUNREACH });
+        }
+    }
     let site = format!("{}/first{}-max{}-inflight{}", cell.name(), tcfg.first_ttl, tcfg.max_ttl, tcfg.max_inflight);
     let replay = replay_of("C06", seed, i, &tcfg, &wcfg.topo);
     let Some((world, run)) = run_guarded(&wcfg, &tcfg, false, |_| {}, &mut o, &site, &replay, &format!("scenario {i}")) else {
@@ -104,7 +116,7 @@ pub fn run_scenario(seed: u64, i: usize, tier: Tier) -> Outcome {
     let a = analyse(&w, 0, &run);
     let site2 = cell.name();
     let before = o.violations.len();
-    check_scheduling(&w, &a, &run, &tcfg, &mut o, &site2, &replay, if target_answers { Some(dist as u8) } else { None });
+    check_scheduling(&w, &a, &run, &tcfg, &mut o, &site2, &replay, if target_answers && !uneven { Some(dist as u8) } else { None });
     let _ = before;
     let sends: usize = a.rounds.iter().map(|r| r.groups.len()).sum();
     o.count("sends_observed", sends as u64);
@@ -130,7 +142,7 @@ pub fn run_scenario(seed: u64, i: usize, tier: Tier) -> Outcome {
 
 pub fn run(tier: Tier, seed: u64, only: Option<usize>) -> i32 {
     let mut rep = Report::new("C06", "exploration", tier, seed);
-    rep.rule = "scenario = protocol x family x (first-ttl in {1,2,5,24,25,64,200,254}, max-ttl = first + {0,1,10,63,253}, max-inflight in {1,2,3,24,64,255}) x path length (at / inside / beyond the probed window) x response delay (before / between / after sends, beyond the round) x silent prefixes and lossy hops; TCP with address-in-use re-issues; non-trivial = more sends than rounds; distinct by (protocol, configuration shape)".into();
+    rep.rule = "scenario = protocol x family x (first-ttl in {1,2,5,24,25,64,200,254}, max-ttl = first + {0,1,10,63,253}, max-inflight in {1,2,3,24,64,255}) x path length (at / inside / beyond the probed window) x response delay (before / between / after sends, beyond the round) x silent prefixes and lossy hops x uneven ECMP (half of the flows cross 1..3 more routers) x transient send failures; TCP with address-in-use re-issues; non-trivial = more sends than rounds; distinct by (protocol, configuration shape)".into();
     rep.assumptions = vec![
         "the in-flight clause is judged against the farthest genuine responder of the round (first-ttl - 1 if none), which is what the property states; the implementation is allowed to be stricter".into(),
         "'target distance established' = a genuine target response to the probe at the topology's true distance was read (paths here are stable)".into(),
